@@ -444,16 +444,26 @@ def chk(E, name, fn, spec):
 
 
 def chk_norm(E, name, fn, D):
+    tot = 0
+    for idx in np.ndindex(*D.shape):
+        tot = tot + D[idx] * D[idx]
+    if hasattr(E, "nonneg"):
+        # the oracle's sum of squares is registered as non-negative: a guard |.| around a polynomial-identical argument
+        # (cp_norm takes sqrt(|sum|)) then resolves to the argument itself
+        E.nonneg(tot)
     ok, n = call(E, name, fn)
     if not ok:
         return
     if isinstance(n, np.ndarray):
         E.prove(name + "/scalar", n.shape == ())
         n = n[()]
-    tot = 0
-    for idx in np.ndindex(*D.shape):
-        tot = tot + D[idx] * D[idx]
-    E.prove(name + "/square", E.eq(n * n, tot))
+    sq = n * n
+    if E.symbolic and hasattr(E, "nonneg"):
+        from vt import sym
+
+        if isinstance(sq, sym.SR) and sq.c is None:
+            sq = sym.SR(sym.CTX.resolve_abs(sym.term(sq)))
+    E.prove(name + "/square", E.eq(sq, tot))
     E.prove(name + "/nonneg", E.ge(n, 0))
 
 
